@@ -32,7 +32,14 @@ fn probe<T: Subject>(x: &T, zy: &Z) -> Result<(bool, bool, bool, bool), String> 
     x.hash(&mut h1);
     let mut h2 = DefaultHasher::new();
     y.hash(&mut h2);
-    let def = h1.finish() == h2.finish();
+    // slices and tuples of vectors (Vec<T>::hash goes through the provided Hash::hash_slice)
+    let mut h3 = DefaultHasher::new();
+    vec![x.clone(), x.clone()].hash(&mut h3);
+    (x.clone(), 7u8).hash(&mut h3);
+    let mut h4 = DefaultHasher::new();
+    vec![y.clone(), x.clone()].hash(&mut h4);
+    (y.clone(), 7u8).hash(&mut h4);
+    let def = h1.finish() == h2.finish() && h3.finish() == h4.finish();
     let mut set: HashSet<T> = HashSet::new();
     set.insert(x.clone());
     let found = set.contains(&y);
@@ -45,7 +52,7 @@ impl Property for C10 {
         "C10"
     }
     fn rule(&self) -> String {
-        "Cases: two representations x,y of one numeric value within one zoo type: different lengths >= the significant bits, different provenance (spare capacity, long-then-truncated, heap-mode vs inline Bv, produced by an operation). Checked: the premise x==y is itself confirmed against the model (values equal) and on the implementation; then the byte stream fed to a recording Hasher is identical, std DefaultHasher outputs are equal, and a HashSet holding x contains y. Enumerated: all values n<=8 x all length pairs <=12 per type; for every n1<=min(C,320) the partner lengths {n1+1, next word boundary, boundary+1, C} with three value classes. Non-trivial: the two representations differ in length, provenance, capacity or Bv storage mode. Distinct by hash of the case.".into()
+        "Cases: two representations x,y of one numeric value within one zoo type: different lengths >= the significant bits, different provenance (spare capacity, long-then-truncated, heap-mode vs inline Bv, produced by an operation). Checked: the premise x==y is itself confirmed against the model (values equal) and on the implementation; then the byte stream fed to a recording Hasher is identical, std DefaultHasher outputs are equal (for the vectors themselves and inside a Vec and a tuple, i.e. through the provided Hash::hash_slice), and a HashSet holding x contains y. Enumerated: all values n<=8 x all length pairs <=12 per type; for every n1<=min(C,320) the partner lengths {n1+1, next word boundary, boundary+1, C} with three value classes. Non-trivial: the two representations differ in length, provenance, capacity or Bv storage mode. Distinct by hash of the case.".into()
     }
     fn random_cases(&self, tier: Tier) -> u64 {
         tier.pick(300000, 9600000)
